@@ -65,6 +65,41 @@ class C03(C02):
             "(c) operator audit.  non-trivial = the lax validator changed its input, or the value is within 1 of a bound, or the "
             "declaration has >= 2 constraints; distinct by (constraints, value)")
 
+    def evaluate(self, cases):
+        """C02's evaluation, plus: the model is also run on the *result* of every accepted declared-type parse (the re-parse),
+        so that the second pass of the real code is tied to the model too (io['reparse_model'])."""
+        impl_outs, model_outs = super().evaluate(cases)
+        idx, derived = [], []
+        for i, (c, io) in enumerate(zip(cases, impl_outs)):
+            if isinstance(io, dict) and c.get("op") == "rule" and io.get("decl") == "ok" and "ok" in io.get("parse", {}) \
+                    and "reparse" in io and io["parse"].get("type") == c.get("origin"):
+                # (the model covers the validator phase on values of the source type; a result of another type would
+                # first go through the origin conversion, which is C01/C12's model)
+                d = dict(c)
+                d["value"] = io["parse"]["ok"]
+                idx.append(i)
+                derived.append(d)
+        if derived and self.driver:
+            from .common import run_driver
+            outs = run_driver(self.driver, [self.model_line(d) for d in derived])
+            for i, mo in zip(idx, outs):
+                impl_outs[i]["reparse_model"] = mo
+        return impl_outs, model_outs
+
+    def compare(self, case, io, mo):
+        d = super().compare(case, io, mo)
+        if d:
+            return d
+        rm = io.get("reparse_model") if isinstance(io, dict) else None
+        if isinstance(rm, dict) and "unmodelled" not in rm and "driver-error" not in rm:
+            rp = io.get("reparse", {})
+            if "ok" in rp and "ok" in rm:
+                if c02.canon(rp["ok"]) != c02.canon(rm["ok"]):
+                    return f"re-parse result differs: impl {rp['ok']} model {rm['ok']}"
+            elif not ("perr" in rp and "err" in rm):
+                return f"re-parse verdict differs: impl {rp} model {rm}"
+        return None
+
     def spec(self, case, io, mo):
         op = case["op"]
         if op == "validator":
@@ -139,6 +174,12 @@ class C03(C02):
         if case["op"] == "rule" and case.get("lax") and len(case["constraints"]) >= 2 and "ok" in io.get("parse", {}):
             r = decode(io["parse"]["ok"])
             cs = self._cs(case)
+            # (a) in the sequential, documented sense (Decimal padded by decimal_places before max_digits counts, etc.):
+            # the model of the unchanged validators, run on the result, predicts exactly the re-parse the real code showed
+            rm, rp = io.get("reparse_model"), io.get("reparse", {})
+            if isinstance(rm, dict) and not same(r, decode(case["value"])):
+                if ("err" in rm and "perr" in rp) or ("ok" in rm and "ok" in rp and c02.canon(rm["ok"]) == c02.canon(rp["ok"])):
+                    return "lax-result-not-revalidated"
             for n, b in cs.items():
                 try:
                     if b is not None and not sat(n, r, b):
